@@ -297,14 +297,15 @@ def evidence_dir():
 
 
 def known_match(kset, key):
-    """exact match, or a known entry whose locus is an fnmatch pattern (systematic defects)"""
+    """The known entry (its key) that suppresses this deviation, or None: exact match, or a known entry whose locus is an
+    fnmatch pattern (systemic defects)."""
     import fnmatch
     if key in kset:
-        return True
+        return key
     for k in kset:
-        if k[:3] == key[:3] and any(ch in k[3] for ch in "*?") and fnmatch.fnmatchcase(key[3], k[3]):
-            return True
-    return False
+        if k[:3] == key[:3] and any(ch in k[3] for ch in "*?[") and fnmatch.fnmatchcase(key[3], k[3]):
+            return k
+    return None
 
 
 def wsize(w):
@@ -324,14 +325,24 @@ def finish(ctx, confirm=None, level="model_checking"):
         if wsize(r["witness"]) < wsize(g["best"]["witness"]):
             g["best"] = r
     unknown, hit = [], []
+    per_entry = {}
     for key in sorted(groups):
         g = groups[key]
-        if known_match(kset, key):
+        ek = known_match(kset, key)
+        if ek is not None:
             hit.append(key)
-            print("KNOWN-FINDING: property=%s %s %s %s e.g. %s (%d cases this run)" % (
-                key[0], key[1], key[2], key[3], json.dumps(g["best"]["witness"])[:160], g["n"]))
+            pe = per_entry.setdefault(ek, {"groups": 0, "cases": 0, "best": g["best"]})
+            pe["groups"] += 1
+            pe["cases"] += g["n"]
+            if wsize(g["best"]["witness"]) < wsize(pe["best"]["witness"]):
+                pe["best"] = g["best"]
         else:
             unknown.append((key, g))
+    # one line per LISTED finding that was met in this run
+    for ek in sorted(per_entry):
+        pe = per_entry[ek]
+        print("KNOWN-FINDING: property=%s %s %s %s e.g. %s (%d deviation groups, %d cases this run)" % (
+            ek[0], ek[1], ek[2], ek[3], json.dumps(pe["best"]["witness"])[:160], pe["groups"], pe["cases"]))
     nviol, unconfirmed = 0, []
     rdir = os.path.join(VERIF, "replays") if os.path.realpath(REPO) == "/repo" else os.path.join(evidence_dir(), "replays")
     os.makedirs(rdir, exist_ok=True)
